@@ -42,6 +42,10 @@ func NewGenerator(env *Zlisp) *Generator {
 func (gen *Generator) NewSubGenerator() *Generator {
 	subgen := NewGenerator(gen.env)
 	subgen.knownFunctions = gen.knownFunctions
+	// the sub-form runs in the same scopes and function as its parent
+	// (break/continue/tail calls count the scopes they must leave)
+	subgen.scopes = gen.scopes
+	subgen.funcname = gen.funcname
 	return subgen
 }
 
@@ -433,6 +437,8 @@ func (gen *Generator) GenerateCond(args []Sexp) error {
 	// we generate the cond bottom up, so i counts down.
 	for i := len(args)/2 - 1; i >= 0; i-- {
 		subgen.Reset()
+		subgen.scopes = gen.scopes
+		subgen.funcname = gen.funcname
 		err := subgen.Generate(args[2*i])
 		if err != nil {
 			return err
